@@ -61,6 +61,7 @@ def check_zone(ctx, tz, label, kind, z, model, rng):
     UTC = tz.UTC
     seen = {}
     nbad = 0
+    first = []
     for i, off, ts, us in probes(model, rng, kind):
         u = (TM.EPOCH + D.timedelta(seconds=ts, microseconds=us)).replace(tzinfo=UTC)
         ctx.ev()
@@ -98,8 +99,23 @@ def check_zone(ctx, tz, label, kind, z, model, rng):
             nbad += 1
             if nbad <= 3:
                 ctx.violation('conversion', case, '; '.join(bad))
+        elif len(first) < 40 or rng.random() < .02:
+            first.append((l, uo, name, case))
         if i >= 0 and isinstance(off, int) and abs(off) <= 10800:
             ctx.distinct('%s|%d|%d|%d' % (label, i, off, us))
+    # a second look at datetimes converted earlier (zones keep lookup caches): same offset and abbreviation as at first
+    for l, uo, name, case in first:
+        ctx.ev()
+        ctx.count('second_looks')
+        try:
+            again = (l.utcoffset(), l.tzname(), l.astimezone(UTC))
+        except Exception as e:
+            ctx.violation('conversion-raised', case, 'second look: %s: %s' % (type(e).__name__, e))
+            break
+        if again[:2] != (uo, name) or again[2].replace(tzinfo=None) != l.replace(tzinfo=None) - uo:
+            ctx.violation('second-look-differs', case, 'the converted datetime %s first reported %s %r, later %s %r (back-conversion %s)'
+                          % (l.replace(tzinfo=None).isoformat(), uo, name, again[0], again[1], again[2].replace(tzinfo=None).isoformat()))
+            break
     ctx.count('zones_' + kind)
     ctx.count('offset_changes_probed', len(model.transitions()))
     if ctx.counters['zones_' + kind] <= 2:
